@@ -59,10 +59,15 @@ FilterAsts == <<
   F!FSimple("eq", sCN, Long(130)),
   F!FSub(sSN, <<<<>>, sB, <<>>>>)>>
 Unparen(s) == SubSeq(s, 2, Len(s) - 1)
-(* strings handed to the library: canonical print, all-escaped print, and a bare item without parentheses *)
-FilterStrs == [i \in 1..Len(FilterAsts) |-> F!Print(FilterAsts[i])]
-             \o <<F!Render(FilterAsts[2], <<1>>), Unparen(F!Print(FilterAsts[2])), Unparen(F!Print(FilterAsts[5]))>>
-ASSUME FiltersParse == \A i \in 1..Len(FilterStrs) : F!Parse(FilterStrs[i]).ok
+(* strings handed to the library: canonical print, all-escaped print, and bare items without parentheses.
+   An operator with a parameter, so that TLC does not evaluate the strings while it starts up: the start-up thread has a
+   small stack, and printing/parsing a 130-octet value is a deep recursion (it belongs on a worker thread). *)
+NFilters == Len(FilterAsts) + 3
+FilterStr(i) == IF i <= Len(FilterAsts) THEN F!Print(FilterAsts[i])
+                ELSE IF i = Len(FilterAsts) + 1 THEN F!Render(FilterAsts[2], <<1>>)
+                ELSE IF i = Len(FilterAsts) + 2 THEN Unparen(F!Print(FilterAsts[2]))
+                ELSE Unparen(F!Print(FilterAsts[5]))
+ASSUME FiltersParse == \A i \in (1..NFilters) \ {9} : F!Parse(FilterStr(i)).ok        \* the long one: see ReqTags
 BadFilter == <<40, 99, 110, 61>>                                                        \* "(cn="
 ASSUME ~F!Parse(BadFilter).ok
 
@@ -94,7 +99,7 @@ Lists(pool) == {<<>>} \cup {<<pool[i]>> : i \in 1..Len(pool)} \cup {<<pool[i], p
 BaseArgs(op) ==
   CASE op = "bind" -> [dn |-> sDn, pw |-> sPW]
     [] op \in {"saslext", "unbind"} -> [x |-> 0]
-    [] op = "search" -> SArgs(sDn, "Subtree", "Never", 0, 0, FALSE, FilterStrs[1], <<sCN>>)
+    [] op = "search" -> SArgs(sDn, "Subtree", "Never", 0, 0, FALSE, FilterStr(1), <<sCN>>)
     [] op = "add" -> [dn |-> sDn, attrs |-> <<AttrPool[1], AttrPool[2]>>]
     [] op = "compare" -> [dn |-> sDn, attr |-> sCN, val |-> sABC]
     [] op = "delete" -> [dn |-> sDn]
@@ -103,23 +108,23 @@ BaseArgs(op) ==
     [] op = "extended" -> [name |-> sOidWho, hasval |-> FALSE, val |-> <<>>]
     [] op = "abandon" -> [target |-> 1]
 
-SearchPool ==
-  {SArgs(sDn, sc, de, 0, 0, ty, FilterStrs[1], <<sCN>>) : sc \in Scopes, de \in Derefs, ty \in BOOLEAN}
-  \cup {SArgs(sDn, "Subtree", "Never", n, 0, FALSE, FilterStrs[1], <<>>) : n \in Limits}
-  \cup {SArgs(sDn, "Subtree", "Never", 0, n, FALSE, FilterStrs[1], <<>>) : n \in Limits}
-  \cup {SArgs(<<>>, "Base", "Always", n, n, TRUE, FilterStrs[1], <<>>) : n \in {1, 128, MaxI, -1, MinI}}
-  \cup {SArgs(sDn, "OneLevel", "Finding", 0, 0, FALSE, FilterStrs[i], <<sCN>>) : i \in 1..Len(FilterStrs)}
-  \cup {SArgs(sDn, "OneLevel", "Searching", 0, 0, FALSE, FilterStrs[2], AttrLists[i]) : i \in 1..Len(AttrLists)}
-  \cup {SArgs(DNs[i], "Base", "Never", 0, 0, FALSE, FilterStrs[2], <<>>) : i \in 1..Len(DNs)}
-  \cup {SArgs(DNs[b], sc, "Always", 1, MaxI, TRUE, FilterStrs[f], AttrLists[at]) : b \in 1..3, sc \in Scopes, f \in {3, 5, 7, 12}, at \in {1, 3, 6}}
-  \cup (IF Deep THEN {SArgs(sUtfDn, sc, de, n, m, ty, FilterStrs[3], <<sCN, sSN>>) :
+SearchPoolOf(deep) ==
+  {SArgs(sDn, sc, de, 0, 0, ty, FilterStr(1), <<sCN>>) : sc \in Scopes, de \in Derefs, ty \in BOOLEAN}
+  \cup {SArgs(sDn, "Subtree", "Never", n, 0, FALSE, FilterStr(1), <<>>) : n \in Limits}
+  \cup {SArgs(sDn, "Subtree", "Never", 0, n, FALSE, FilterStr(1), <<>>) : n \in Limits}
+  \cup {SArgs(<<>>, "Base", "Always", n, n, TRUE, FilterStr(1), <<>>) : n \in {1, 128, MaxI, -1, MinI}}
+  \cup {SArgs(sDn, "OneLevel", "Finding", 0, 0, FALSE, FilterStr(i), <<sCN>>) : i \in 1..NFilters}
+  \cup {SArgs(sDn, "OneLevel", "Searching", 0, 0, FALSE, FilterStr(2), AttrLists[i]) : i \in 1..Len(AttrLists)}
+  \cup {SArgs(DNs[i], "Base", "Never", 0, 0, FALSE, FilterStr(2), <<>>) : i \in 1..Len(DNs)}
+  \cup {SArgs(DNs[b], sc, "Always", 1, MaxI, TRUE, FilterStr(f), AttrLists[at]) : b \in 1..3, sc \in Scopes, f \in {3, 5, 7, 12}, at \in {1, 3, 6}}
+  \cup (IF deep THEN {SArgs(sUtfDn, sc, de, n, m, ty, FilterStr(3), <<sCN, sSN>>) :
                         sc \in Scopes, de \in Derefs, ty \in BOOLEAN, n \in {0, 127, 128, MaxI, -129}, m \in {0, 255, 256, 32768, MinI}}
         ELSE {})
 
 ArgPool(op) ==
   CASE op = "bind" -> {[dn |-> DNs[i], pw |-> p] : i \in 1..Len(DNs), p \in {<<>>, sPW, sUtf, Long(130)}}
     [] op \in {"saslext", "unbind"} -> {[x |-> 0]}
-    [] op = "search" -> SearchPool
+    [] op = "search" -> SearchPoolOf(Deep)
     [] op = "add" -> {[dn |-> d, attrs |-> l] : d \in {<<>>, sDn}, l \in Lists(AttrPool)}
     [] op = "compare" -> {[dn |-> d, attr |-> t, val |-> Vals[i]] : d \in {<<>>, sUtfDn}, t \in {sCN, sCertBin}, i \in 1..Len(Vals)}
     [] op = "delete" -> {[dn |-> DNs[i]] : i \in 1..Len(DNs)}
@@ -198,6 +203,7 @@ ReqTags ==
      LET t == OpTree(v.op, v.a) IN
      /\ t.c = 1 /\ t.n = AppTag(v.op) /\ t.n \in {0, 2, 3, 6, 8, 10, 12, 14, 16, 23}
      /\ (RespTag(v.op) # 0 => RespTag(v.op) = AppTag(v.op) + 1 + (IF v.op = "search" THEN 1 ELSE 0))
+     /\ (v.op = "search" => F!Parse(v.a.filter).ok)
 (* every definite-length encoding of a response is read back as the response *)
 RespRoundTrip ==
   (ph = 1 /\ Dir = "resp") =>
